@@ -157,6 +157,7 @@ type Schema struct {
 	Directives []*Directive
 	TypeCount  int
 	RootNames  [3]string
+	MapInputs  []string // input objects bound to map[string]interface{} (docs/content/recipes: changesets)
 }
 
 var goKeywords = []string{"break", "default", "func", "interface", "select", "case", "defer", "go", "map", "struct", "chan", "else", "goto", "package", "switch", "const", "fallthrough", "if", "range", "type", "continue", "for", "import", "return", "var"}
@@ -1254,6 +1255,14 @@ func (g *gen) inject() {
 			qf(fmt.Sprintf("bcKind%d", i), &Ref{Name: n}, &Arg{Name: "k", T: &Ref{Name: n}})
 		}
 		g.feat("benign_type_name_collisions")
+	}
+	if g.o.Inject == "" && g.o.Seed%4 == 3 {
+		// an input object bound to map[string]interface{} (the documented changeset pattern)
+		in := add(&Def{Kind: "input", Name: "MiChanges", Fields: []*Field{{Name: "name", T: &Ref{Name: "String"}}, {Name: "qty", T: intT()}, {Name: "tags", T: &Ref{Of: &Ref{Name: "String", NN: true}}}}})
+		g.inputs = append(g.inputs, in)
+		qf("miApply", &Ref{Name: "Boolean"}, &Arg{Name: "changes", T: &Ref{Name: "MiChanges"}}, &Arg{Name: "required", T: &Ref{Name: "MiChanges", NN: true}})
+		g.s.MapInputs = append(g.s.MapInputs, "MiChanges")
+		g.feat("input_bound_to_map")
 	}
 	if g.o.Inject == "" && g.o.Seed%4 == 1 {
 		// two generated object types that hold each other by value-typed (non-null, non-list) fields:
